@@ -32,6 +32,7 @@ import (
 //	call <Op> <a> <b>                      => <res> | <consulted>
 //	site <user> <proxy> <e|s>              => see eng_plugin_site.go (one proxy through every gated call site)
 //	sess <user> <script>                   => see eng_plugin_sess.go (one session, several proxies, close notifications)
+//	hist <script>                          => see eng_plugin_hist.go (a history: several sessions, re-logins, behaviour flips, repeated gated ops)
 //
 // Visible content members (a, b) per op:
 //
@@ -503,6 +504,11 @@ func plugExec(tok []string) string {
 			return pst.siteBad
 		}
 		return sessRun(unhx(tok[1]), tok[2])
+	case "hist":
+		if pst.siteBad != "" {
+			return pst.siteBad
+		}
+		return histRun(tok[1])
 	}
 	return "bad-op"
 }
@@ -647,6 +653,9 @@ func plugGen(rng *rand.Rand, n int, emit func(string)) {
 			}
 			if httpOnly && rng.Intn(3) == 0 {
 				e("sess " + hx(pick(rng, []string{"", "u", "alice", "né"})) + " " + plugGenScript(rng))
+			}
+			if httpOnly && rng.Intn(6) == 0 {
+				e("hist " + plugGenHist(rng, id))
 			}
 			if rng.Intn(10) == 0 && id < 8 { // late registration
 				id++
